@@ -889,4 +889,233 @@ theorem pOrder_length_of_connected (d : DMRS) (hc : ∀ n ∈ d.nodes, n.id ∈ 
     rcases List.mem_append.mp hn with h | h
     · simpa using hc n (List.mem_filter.mp h).1
     · simpa using hc n (List.mem_filter.mp h).1
+/-! ### surface predicates through `<realpred>` -/
+
+theorem ofNat_add32 : ∀ n < 91, 65 ≤ n → (Char.ofNat (n + 32)).toNat = n + 32 := by decide
+
+theorem lowerC_idem (c : Char) : lowerC (lowerC c) = lowerC c := by
+  unfold lowerC
+  by_cases h : 65 ≤ c.toNat ∧ c.toNat ≤ 90
+  · have := ofNat_add32 c.toNat (by omega) h.1
+    simp only [h, and_self, if_true, this]
+    split
+    · omega
+    · rfl
+  · simp [h]
+
+theorem lower_idem (s : Str) : lower (lower s) = lower s := by
+  unfold lower
+  rw [List.map_map]
+  apply List.map_congr_left
+  intro c _
+  exact lowerC_idem c
+
+theorem lower_length (s : Str) : (lower s).length = s.length := by simp [lower]
+
+theorem stripRel_spec (s : Str) : (stripRel s).length ≤ s.length ∧ ((stripRel s).length = s.length → stripRel s = s) := by
+  unfold stripRel
+  split
+  · next h =>
+    have h4 : (s.drop (s.length - 4)).length = 4 := by
+      have := congrArg List.length h
+      rw [lower_length] at this
+      simpa [S] using this
+    simp only [List.length_drop] at h4
+    constructor
+    · simp [List.length_take]
+    · intro he
+      simp only [List.length_take] at he
+      omega
+  · exact ⟨Nat.le_refl _, fun _ => rfl⟩
+
+theorem stripPred_fixed (s : Str) (h : (stripPred s).length = s.length) : stripPred s = s := by
+  unfold stripPred at h ⊢
+  simp only at h ⊢
+  split at h
+  · next hq =>
+    exfalso
+    have h1 := (stripRel_spec ((s.drop 1).dropLast)).1
+    have hne : s ≠ [] := by intro e; simp [e] at hq
+    have : ((s.drop 1).dropLast).length < s.length := by
+      cases s with
+      | nil => exact absurd rfl hne
+      | cons a t => simp; omega
+    omega
+  · split at h
+    · next hq =>
+      exfalso
+      have h1 := (stripRel_spec (s.drop 1)).1
+      have hne : s ≠ [] := by intro e; simp [e] at hq
+      have : (s.drop 1).length < s.length := by
+        cases s with
+        | nil => exact absurd rfl hne
+        | cons a t => simp
+      omega
+    · next hq1 hq2 =>
+      simp only [hq1, hq2, if_false]
+      exact (stripRel_spec s).2 h
+
+theorem norm_fixed (p : Str) (hn : normalizePred p = p) : stripPred p = p ∧ lower p = p := by
+  have hl : lower p = p := by
+    have : lower (normalizePred p) = normalizePred p := by unfold normalizePred; exact lower_idem _
+    rw [hn] at this; exact this
+  have hlen : (stripPred p).length = p.length := by
+    have := congrArg List.length hn
+    unfold normalizePred at this
+    rw [lower_length] at this
+    exact this
+  exact ⟨stripPred_fixed p hlen, hl⟩
+
+theorem splitOn_pieces (c : Char) (s : Str) : ∀ piece ∈ splitOn c s, c ∉ piece ∧ ∀ x ∈ piece, x ∈ s := by
+  induction s with
+  | nil => intro piece hp; simp [splitOn] at hp; subst hp; simp
+  | cons a t ih =>
+    intro piece hp
+    unfold splitOn at hp
+    split at hp
+    · rcases List.mem_cons.mp hp with h | h
+      · subst h; simp
+      · obtain ⟨h1, h2⟩ := ih piece h
+        exact ⟨h1, fun x hx => List.mem_cons_of_mem _ (h2 x hx)⟩
+    · next hne =>
+      cases hsp : splitOn c t with
+      | nil =>
+        rw [hsp] at hp
+        simp [consHead] at hp
+        subst hp
+        exact ⟨by simp; exact fun e => hne e.symm, by simp⟩
+      | cons q qs =>
+        rw [hsp] at hp
+        simp only [consHead] at hp
+        rcases List.mem_cons.mp hp with h | h
+        · subst h
+          obtain ⟨h1, h2⟩ := ih q (by rw [hsp]; simp)
+          refine ⟨?_, ?_⟩
+          · intro hm
+            rcases List.mem_cons.mp hm with e | e
+            · exact hne e.symm
+            · exact h1 e
+          · intro x hx
+            rcases List.mem_cons.mp hx with e | e
+            · subst e; simp
+            · exact List.mem_cons_of_mem _ (h2 x e)
+        · obtain ⟨h1, h2⟩ := ih piece (by rw [hsp]; exact List.mem_cons_of_mem _ h)
+          exact ⟨h1, fun x hx => List.mem_cons_of_mem _ (h2 x hx)⟩
+
+theorem splitOn_ne_nil' (c : Char) (s : Str) : splitOn c s ≠ [] := by
+  cases s with
+  | nil => simp [splitOn]
+  | cons a t =>
+    unfold splitOn
+    split
+    · simp
+    · cases splitOn c t <;> simp [consHead]
+
+theorem joinWith_splitOn (c : Char) (s : Str) : joinWith c (splitOn c s) = s := by
+  induction s with
+  | nil => rfl
+  | cons a t ih =>
+    unfold splitOn
+    split
+    · next h =>
+      subst h
+      cases hsp : splitOn a t with
+      | nil => exact absurd hsp (splitOn_ne_nil' a t)
+      | cons q qs =>
+        rw [hsp] at ih
+        simp [joinWith, ih]
+    · cases hsp : splitOn c t with
+      | nil => exact absurd hsp (splitOn_ne_nil' c t)
+      | cons q qs =>
+        rw [hsp] at ih
+        cases qs with
+        | nil => simp only [consHead, joinWith] at ih ⊢; rw [ih]
+        | cons q2 qs2 => simp only [consHead, joinWith] at ih ⊢; rw [← ih]; simp
+
+theorem lemmaOK_piece (r piece : Str) (hws : r.any isWs = false) (hp : piece ∈ splitOn '_' r) (hne : piece ≠ []) :
+    lemmaOK piece = true := by
+  obtain ⟨h1, h2⟩ := splitOn_pieces '_' r piece hp
+  unfold lemmaOK
+  have : piece.any (fun c => isWs c || c = '_') = false := by
+    rw [List.any_eq_false]
+    intro x hx
+    have hx1 : isWs x = false := by
+      have := List.any_eq_false.mp hws x (h2 x hx)
+      simpa using this
+    have hx2 : x ≠ '_' := fun e => h1 (e ▸ hx)
+    simp [hx1, hx2]
+  cases piece with
+  | nil => exact absurd rfl hne
+  | cons a t => simp [this]
+
+theorem isPos_lower (pos : Str) (h : isPos pos = true) : ((lower pos).length = 1 && isPos (lower pos)) = true := by
+  unfold isPos at h
+  match pos, h with
+  | [c], h =>
+    simp only [lower, List.map_cons, List.map_nil, List.length_cons, List.length_nil, isPos, lowerC_idem]
+    simpa using h
+
+theorem predRT_surface (p : Str) (hn : normalizePred p = p) (hs : isSurface p = true) : PredRT p := by
+  obtain ⟨hsp, hl⟩ := norm_fixed p hn
+  have hss : strictSurface p = true := by unfold isSurface at hs; rw [hsp] at hs; exact hs
+  unfold strictSurface at hss
+  cases p with
+  | nil => simp at hss
+  | cons c0 r =>
+    have hc0 : c0 = '_' := by
+      apply Classical.byContradiction
+      intro hc
+      split at hss
+      · next heq => simp only [List.cons.injEq] at heq; exact hc heq.1
+      · simp at hss
+    subst hc0
+    simp only [Bool.and_eq_true, Bool.not_eq_true'] at hss
+    obtain ⟨hws, hparts⟩ := hss
+    have hjoin := joinWith_splitOn '_' r
+    cases hsplit : splitOn '_' r with
+    | nil => rw [hsplit] at hparts; simp at hparts
+    | cons l rest1 =>
+      cases rest1 with
+      | nil => rw [hsplit] at hparts; simp at hparts
+      | cons pos rest2 =>
+        cases rest2 with
+        | nil =>
+          rw [hsplit] at hparts hjoin
+          simp only [Bool.and_eq_true, Bool.not_eq_true', List.isEmpty_eq_false_iff] at hparts
+          obtain ⟨hlne, hpos⟩ := hparts
+          have hlok := lemmaOK_piece r l hws (by rw [hsplit]; simp) hlne
+          have hposok := isPos_lower pos hpos
+          simp only [joinWith] at hjoin
+          refine ⟨{ tag := S "realpred", attrs := [(S "lemma", l), (S "pos", pos)], text := none }, ?_, ?_, (by decide : S "realpred" ≠ S "sortinfo")⟩
+          · simp [encPredX, hn, hs, splitPred, hsp, hsplit]
+          · have hcreate : createPred l pos none = .ok ('_' :: r) := by
+              simp [createPred, hlok, hposok, hjoin]
+            simp (config := { decide := true }) [decPredX, dget, S, hcreate]
+            simpa [S] using hn
+        | cons x rest3 =>
+          cases rest3 with
+          | nil =>
+            rw [hsplit] at hparts hjoin
+            simp only [Bool.and_eq_true, Bool.not_eq_true', List.isEmpty_eq_false_iff] at hparts
+            obtain ⟨⟨hlne, hpos⟩, hxne⟩ := hparts
+            have hlok := lemmaOK_piece r l hws (by rw [hsplit]; simp) hlne
+            have hxok := lemmaOK_piece r x hws (by rw [hsplit]; simp) hxne
+            have hposok := isPos_lower pos hpos
+            simp only [joinWith] at hjoin
+            have hxe : x.isEmpty = false := by cases x with
+              | nil => exact absurd rfl hxne
+              | cons _ _ => rfl
+            refine ⟨{ tag := S "realpred", attrs := [(S "lemma", l), (S "pos", pos), (S "sense", x)], text := none }, ?_, ?_, (by decide : S "realpred" ≠ S "sortinfo")⟩
+            · simp [encPredX, hn, hs, splitPred, hsp, hsplit, hxe]
+            · have hcreate : createPred l pos (some x) = .ok ('_' :: r) := by
+                simp [createPred, hlok, hxok, hposok, ← hjoin]
+              simp (config := { decide := true }) [decPredX, dget, S, hcreate]
+              simpa [S] using hn
+          | cons y rest4 => rw [hsplit] at hparts; simp at hparts
+
+/-- every normalised, non-empty predicate survives the DMRX predicate element -/
+theorem predRT_of_normal (p : Str) (hn : normalizePred p = p) (hne : p ≠ []) : PredRT p := by
+  cases hs : isSurface p with
+  | true => exact predRT_surface p hn hs
+  | false => exact predRT_gpred p hn hne hs
 end Verif.C02
